@@ -303,6 +303,36 @@ def c08_require(agg):
     return need
 
 
+# ------------------------------------------------------------------ C09
+
+def c09_env(b):
+    e = {}
+    sb = [None, 8192, None, 16384][b % 4]
+    if sb:
+        e["IPCMON_SNDBUF"] = sb
+    if b % 2 == 1:
+        e["IPCMON_WIDEN"] = "1:%d:%d" % (3000, (sb or 212992) // 2)
+    if b % 5 == 2:
+        e["IPCMON_DELAY"] = "%d:%d:%d" % (b + 13, 100, 300)
+    return e
+
+
+def c09_plan(tier, seed):
+    q = tier == "quick"
+    out = jobs("os-debug", "c09", 12 if q else 32, c09_env, {"cases": 60 if q else 900}, timeout=1800)
+    out += jobs("inproc-debug", "c09", 3 if q else 6, None, {"cases": 60 if q else 900}, timeout=1800)
+    return out
+
+
+def c09_require(agg):
+    st = agg["stats"]
+    need = []
+    for k, n in (("sends_after_vanish_err", 500), ("actor_2", 50), ("rxmode_1", 50), ("rxmode_2", 50), ("rxmode_3", 50), ("streams_with_multipacket", 10)):
+        if st.get(k, 0) < n:
+            need.append("%s < %d" % (k, n))
+    return need
+
+
 # ------------------------------------------------------------------ C19
 
 def c19_plan(tier, seed):
@@ -356,6 +386,21 @@ NOTES = ("Runtime monitoring and sanitizers. ./check <id> rebuilds the harness (
 NOT_APPLICABLE = {}
 
 PROPS = {
+    "C09": {
+        "plan": c09_plan,
+        "require": c09_require,
+        "level": "exploration",
+        "level_text": "Exploration: streams of 3..40 stamped sends (small, multi-packet up to 1 MiB, with and without attachments) from the same thread, another "
+                      "thread or an exec'd process with SIGPIPE reset to its default, against a receiver that is dropped after k messages (also between the packets "
+                      "of a multi-packet send), or sits in transit (one or two levels) and is then unpacked or lost with its carrier; a send that began after the "
+                      "receiver vanished must return an error, a send that returned before must have succeeded, racing sends must return, the sender must not die "
+                      "of a signal, and in-transit receivers must deliver everything in order once unpacked.",
+        "level_note": "'Blocks forever' is decided logically: 20 s after the receiver vanished the sender is asleep in one system call with no CPU use while every "
+                      "other actor has finished. Sends overlapping the drop may go either way.",
+        "technique": "runtime monitoring: stamped send histories against a vanish event, logical hang detection on the sender, exit-status inspection of a SIGPIPE-default child",
+        "rule": "case = one stream; distinct = (sender actor, receiver placement, drop position bucket, multi-packet flag, stream length bucket); every case is non-trivial",
+        "assumptions": ["stamps from CLOCK_MONOTONIC are comparable between the sender process and the dropping process"],
+    },
     "C08": {
         "plan": c08_plan,
         "require": c08_require,
